@@ -36,6 +36,7 @@ NOW = "2024-03-05T10:20:30Z"
 TIME_LIMIT = 20.0           # seconds per request (the slowest legitimate request takes < 2 s)
 
 _WORLD = None
+CLIENT_ERROR = -999999     # the request raised outside Flask's error handling (not an HTTP status)
 _DEVNULL = io.StringIO()
 _LAST_EXC: list = []
 
@@ -397,7 +398,7 @@ def run(client, method: str, url: str, headers: dict | None = None, limit: float
     except Timeout:
         status, to = 0, True
     except Exception as e:          # raised outside Flask's error handling (e.g. while building the environ)
-        status, to = -1, False
+        status, to = CLIENT_ERROR, False
         _LAST_EXC.append((type(e).__name__, "client", str(e)[:160]))
     finally:
         signal.setitimer(signal.ITIMER_REAL, 0)
@@ -425,7 +426,7 @@ def violates(res: Result, query: list) -> str | None:
     """the property text: no 5xx other than a requested one, no unbounded run"""
     if res.timed_out:
         return f"no answer within {TIME_LIMIT:.0f} s"
-    if res.status == -1:
+    if res.status == CLIENT_ERROR:
         return f"exception outside the application's error handling: {res.exc}"
     if res.status >= 500 and res.status not in requested_codes(query):
         return f"status {res.status}"
